@@ -46,6 +46,8 @@ fn alphabet(level: u8) -> Vec<Op> {
     match level {
         // minimal: deep continuation epochs
         3 => vec![p("p", 1), p("emb:e", 4)],
+        // continuation that starts with a checkpoint right after the recovery
+        5 => vec![Op::Checkpoint, p("p", 1)],
         // tiny: continuation epochs
         0 => vec![p("p", 1), p("emb:e", 4), d("p"), Op::Sync],
         // small first-epoch alphabet for length-3 histories in the quick tier
@@ -449,9 +451,12 @@ fn jobs(thorough: bool) -> Vec<Job> {
         };
         // (b) multi-epoch depth: short first histories, continued after every distinct crash image
         if thorough {
-            plans.extend([(1, 2, vec![(0, 1)]), (0, 2, vec![(0, 2)]), (0, 1, vec![(0, 1), (0, 1)]), (3, 2, vec![(3, 2), (3, 1)])]);
+            plans.extend([(1, 2, vec![(0, 1)]), (0, 2, vec![(0, 2)]), (0, 1, vec![(0, 1), (0, 1)]), (3, 2, vec![(3, 2), (3, 1)]), (4, 2, vec![(5, 2)])]);
         } else {
             plans.extend([(0, 2, vec![(3, 1)]), (3, 1, vec![(3, 1), (3, 1)])]);
+            if cfg.mode == Mode::Immediate && !cfg.rotate {
+                plans.push((4, 2, vec![(5, 1)]));
+            }
         }
         for (level, len, cont) in plans {
             for h in seqs(&alphabet(level), len) {
